@@ -3,39 +3,66 @@ Import ListNotations.
 From TV Require Import Lib.Obs C28.Model.
 Local Open Scope N_scope.
 
-Inductive kind := KRemove | KAdd | KStatic | KAuth.
+(* which handler answers (the harness fixture) and its configuration *)
+Inductive kind :=
+| KRemove | KAdd                                              (* @removeslash / @addslash on get/head/post *)
+| KStatic (has_default : bool) (fs : fsres) (index_exists : bool)   (* StaticFileHandler; fs = the environment's answer *)
+| KAuth (login : option text) (user : bool)                  (* @authenticated on get/head/post *)
+| KRedirect (flush_first : bool) (url : text) (permanent : bool) (status : option N).  (* self.redirect(...) in get/head/post *)
 
-(* input: (kind, method, path, query, login_url, login_is_absolute, full_url, uri) *)
-Definition input := (kind * list N * list N * list N * list N * bool * list N * list N)%type.
+(* input: (kind, method, request target, Host header) of  "<method> <target> HTTP/1.1\r\nHost: <host>\r\n\r\n" *)
+Definition input := (kind * list N * list N * list N)%type.
 
-Definition decide (i : input) : outcome :=
-  let '(k, m, p, q, login, absl, full, uri) := i in
+Definition defined_methods (k : kind) : list text :=
+  match k with KStatic _ _ _ => [GET; HEAD] | _ => [GET; HEAD; POST] end.
+
+Definition handler_body (k : kind) (m path query host uri : text) : outcome :=
   match k with
-  | KRemove => removeslash m p q
-  | KAdd => addslash m p q
-  | KStatic => static_dir p
-  | KAuth => authenticated m login absl full uri
+  | KRemove => removeslash m path query
+  | KAdd => addslash m path query
+  | KStatic d fs ix => static_get d fs ix path
+  | KAuth login user => authenticated m login user host uri
+  | KRedirect fl url perm st => redirect fl url perm st
   end.
+
+(* request line + Host validation (400), uri.partition("?"), method dispatch (405), handler *)
+Definition handle (i : input) : outcome :=
+  let '(k, m, target, host) := i in
+  if valid_method m && valid_target target && valid_host host then
+    let (path, query) := partition_q target in
+    dispatch (defined_methods k) m (handler_body k m path query host target)
+  else Status 400.
 
 Definition obs_of (o : outcome) : obs :=
   match o with
   | Redirect st loc => OList [OInt (Z.of_N st); OBytes loc]
   | Status c => OList [OInt (Z.of_N c); ONone]
   | CallHandler => OList [OInt 200%Z; ONone]
+  | HeadersSent => OList [OInt 200%Z; ONone]      (* the 200 head was already flushed *)
   end.
 
-Definition run_case (i : input) : obs := obs_of (decide i).
+Definition run_case (i : input) : obs := obs_of (handle i).
 
-(* the property on the implementation's response: a Location derived from the
-   request path is never protocol-relative or scheme-qualified; the
-   authenticated redirect goes to the configured login URL *)
+Definition QNEXT : text := QMARK :: NEXT_EQ.       (* "?next=" *)
+
+(* the property on the implementation's response.
+   - slash decorators / static directory: the Location is never protocol-relative or
+     scheme-qualified, and for an origin-form target it starts with exactly one "/";
+   - @authenticated: the Location is the configured login URL (as UTF-8), alone or followed by
+     "?next=" and characters that are not URL delimiters;
+   - self.redirect(url): the caller's URL, nothing demanded here. *)
 Definition check_case (i : input) (o : obs) : bool :=
-  let '(k, m, p, q, login, absl, full, uri) := i in
+  let '(k, m, target, host) := i in
   match o with
   | OList [OInt _; OBytes loc] =>
       match k with
-      | KAuth => is_prefix login loc
-      | _ => safe_location loc
+      | KAuth (Some login) _ =>
+          let l := wire login in
+          text_eqb loc l
+          || (is_prefix (l ++ QNEXT) loc && forallb url_safe (skipn (List.length (l ++ QNEXT)) loc))
+      | KAuth None _ => false
+      | KRedirect _ _ _ _ => true
+      | _ => if starts_with_slash target then same_host_path loc else safe_location loc
       end
   | OList [OInt _; ONone] => true
   | _ => false
